@@ -92,7 +92,8 @@ def check_rules(rep, facts, rel, rule_sem, rule_acc, tier, only_names=None):
         bad_acc = None
         bad_sem = None
         unknown = None
-        for tup in rel.region_tuples(ru):
+        modes = ['literal'] + (['offset'] if oracle.RV32_FORMAT.get(ru.name) in ('J', 'B') else [])
+        for tup in (t for mode in modes for t in rel.region_tuples(ru, mode)):
             n += 1
             ops = {}
             for p, attr in zip(s.params, args_attrs):
@@ -159,7 +160,7 @@ def check_structure(rep, facts, rel, rule):
         node = r['path'].end_node or rel.pa.loop
         rep.fail(Finding(rule + '.dispatch', 'transform_compressible', node, 'criteria key {!r} falls through the construction chain'.format(key), line=getattr(node, 'lineno', None)),
                  instance='dispatch ' + key)
-    rep.check(len(rel.rules) == len(rel.constructions) + len(rel.unbuilt) and len(rel.rules) > 0, rule + '.dispatch',
+    rep.check(len({ru.key for ru in rel.rules}) == len(rel.constructions) + len(rel.unbuilt) and len(rel.rules) > 0, rule + '.dispatch',
               '{} criteria keys == construction arms'.format(len(rel.rules)),
               lambda: Finding(rule + '.dispatch', 'transform_compressible', 'criteria', 'criteria keys and construction arms differ', line=rel.pa.fn.lineno))
     # name / class consistency of the compressed constructions
